@@ -27,6 +27,12 @@ CHECKS = {
          "At every merge total data size must not grow; when the I/O log shows every non-empty data file was selected the total must equal the size of a fresh store of the live pairs (independent formula), each live key occurs once, no tombstone remains, and a repeated merge changes nothing."),
  "C14": ("exploration", "§6 C14", "deterministic simulation: I/O-log monitor of the file discipline over sequential and reopen workloads",
          "Every tracked libc call on the store directory is checked: exclusive append-only creation, writes only through the creating descriptor at the end of file, no pwrite/writev/truncate/rename/link, ids strictly above everything the directory ever contained, size bound per file, real bytes == recorded bytes."),
+ "C03": ("fault_enumeration", "§6 C03", "deterministic simulation with crash injection: every file-system-call boundary of every sampled workload is a kill point; images built from the recorded shadow and recovered with the real open",
+         "For each sampled workload (set/del/merge/reopen, small file limits so rollovers and multi-file merges are common) every state-changing I/O record is a crash point (quick tier: at most 80 per workload, always including first/last record of every operation; thorough: all). The directory image after that prefix of calls is materialised and opened with the real Config::open; every key must read the acknowledged value or the in-flight operation's value, never error/panic/older value; on a share of images the recovered store must accept a set/get/del round and a second open must read the same."),
+ "C09": ("fault_enumeration", "§6 C09", "deterministic simulation with power-loss injection: per crash point, per file any suffix after the last completed fsync is dropped; recovery with the real open vs. acknowledged-writes model",
+         "Workloads under sync=always; every write/create/unlink/fsync record is a power-loss point with two images each: everything unsynced lost, and per-file random surviving lengths between synced and written length (torn tails, hint file ahead of data file). Same recovery oracle as C03."),
+ "C20": ("fault_enumeration", "§6 C20", "deterministic simulation with I/O fault injection: one transient errno at each individual write/create/fsync/unlink call (thorough: also read-side calls), one fault per run, every position",
+         "A fault-free pass of the workload (plus a final merge and close/reopen) lists its faultable calls; then the workload is re-run once per position with that call failed (ENOSPC/EIO/EDQUOT/EMFILE/EACCES; writes also as short-write-then-error). The failed operation must return Err, every other key must read the model value at once, all later operations must succeed and behave, a later merge must succeed, and after close/reopen every acknowledged key reads its value."),
  "C19": ("exploration", "§6 C19", "deterministic simulation: verif_dump bookkeeping vs. independent scan of the files after every operation",
          "After every operation the index and per-file live/dead/dead_bytes counters (verif_dump) are compared with an independent decoder's scan of the shadow files; overflow checks are on in the shadow build so counter underflow panics."),
 }
